@@ -92,3 +92,23 @@ Fixpoint slot_trace (free : list nat) (evs : list sev) (held maxheld : nat) : op
     if existsb (Nat.eqb t) free then None
     else match held with O => None | S h => slot_trace (t :: free) r h maxheld end
   end.
+
+(* ------------------------------------------------------------------ 2b. pipeline traces (executable) *)
+(* events observed on the real snapshot pipeline: the producer thread put chunk c on the queue, a worker took c off
+   the queue, the backend work for c completed (existence check answered "present", or upload finished) *)
+Inductive pev := EvPut (c : nat) | EvGet (c : nat) | EvFin (c : nat).
+Fixpoint remove_first (c : nat) (l : list nat) : option (list nat) :=
+  match l with
+  | [] => None
+  | x :: r => if Nat.eqb x c then Some r else match remove_first c r with Some r' => Some (x :: r') | None => None end
+  end.
+(* accepts a trace iff puts respect the capacity, every get takes the HEAD of the queue, every completion is of a
+   chunk some worker holds; returns (queue, in hand, processed) at the end *)
+Fixpoint pipe_trace (cap : nat) (q hand done : list nat) (evs : list pev) : option (list nat * list nat * list nat) :=
+  match evs with
+  | [] => Some (q, hand, done)
+  | EvPut c :: r => if length q <? cap then pipe_trace cap (q ++ [c]) hand done r else None
+  | EvGet c :: r => match q with x :: q' => if Nat.eqb x c then pipe_trace cap q' (c :: hand) done r else None | [] => None end
+  | EvFin c :: r => match remove_first c hand with Some hand' => pipe_trace cap q hand' (c :: done) r | None => None end
+  end.
+Definition puts_of (evs : list pev) : list nat := flat_map (fun e => match e with EvPut c => [c] | _ => [] end) evs.
